@@ -69,7 +69,9 @@ Init == /\ model \in ModelsC
         /\ cs \in 1..4 /\ bzero \in BOOLEAN
         /\ tsp \in {-1, 0, 5}
         /\ broad \in BOOLEAN                  \* Stark / MSE: electron density and temperature positive
-        /\ window \in {"inside", "straddle_low", "straddle_high", "outside", "coarse"}
+        \* window classes: line inside / cut by the lower or upper edge / outside / 3 bins of 20 nm, and the unresolved edge
+        \* cases: a single bin holding part of the line, only the line's tail reaching the first (last) bin of a coarse grid
+        /\ window \in {"inside", "straddle_low", "straddle_high", "outside", "coarse", "one_bin_partial", "tail_in_first_bin", "tail_in_last_bin"}
         /\ (model \notin {"stark", "mse"} => broad)
         /\ regime \in (IF model = "stark" /\ broad THEN {"doppler", "mixed"} ELSE {"doppler"})
 Next == UNCHANGED vars
